@@ -1469,7 +1469,16 @@ impl<'a, SE: extensions::ShellExtensions> WordExpander<'a, SE> {
                             .into())
                         }
                         ShellValue::String(_) => {
-                            Ok(std::format!("{name}={assignable_value_str}").into())
+                            // A plain scalar is written as an assignment; one with attributes
+                            // needs a `declare` command to carry them.
+                            if attr_str == "-" {
+                                Ok(std::format!("{name}={assignable_value_str}").into())
+                            } else {
+                                Ok(std::format!(
+                                    "declare -{attr_str} {name}={assignable_value_str}"
+                                )
+                                .into())
+                            }
                         }
                         ShellValue::Unset(_) => {
                             Ok(std::format!("declare -{attr_str} {name}").into())
